@@ -11,7 +11,7 @@ Abs(x) == IF x < 0 THEN -x ELSE x
 St0 == [nops |-> 0, rebootPending |-> FALSE, failsSinceReboot |-> 0, probes |-> 0]
 DiscoKind == IF Has(Sc, "disco") THEN Sc.disco ELSE "ok"
 
-InWindow(r) == ~r.auth \/ r.boots = r.agent_boots /\ Abs(r.time - r.agent_time) <= 150
+InWindow(r) == ~r.auth \/ (r.boots = r.agent_boots /\ Abs(r.time - r.agent_time) <= 150)
 OnOp(s, e) ==
   LET first == s.nops = 0
       failed == e.ret = "exc"
